@@ -231,6 +231,51 @@ def coq_check(prop, timeout=1500, extra_targets=()):
                 theorems=prints, log=log)
 
 
+def coqchk(prop, timeout=1500):
+    """coqchk -o on the compiled property file: every library it depends on is re-checked by the stand-alone checker, which must report
+    no axiom, no type-in-type, no unsafe fixpoint and no assumed positivity."""
+    props = [prop] if isinstance(prop, str) else list(prop)
+    with Lock("coq"):
+        key = vo_fingerprint()
+        cpath = os.path.join(BUILD, "coqchk-cache.json")
+        cache = json.load(open(cpath)) if os.path.exists(cpath) else {}
+        hit = cache.get(key, {})
+        if all(p in hit for p in props):
+            return True, "; ".join(hit[p] for p in props) + " (result of an earlier run on exactly these compiled files)"
+        try:
+            rc, out = sh(["timeout", str(timeout), "coqchk", "-silent", "-o", "-R", COQ, "S3V"] + ["S3V.props." + p for p in props], cwd=COQ, timeout=timeout + 30)
+        except subprocess.TimeoutExpired:
+            return False, "coqchk timed out"
+        ok_, summ = _coqchk_verdict(rc, out, props)
+        if ok_:
+            cache = {key: dict(hit, **{p: "coqchk -o S3V.props.%s: axioms <none>; type-in-type <none>; unsafe fixpoints <none>; assumed positivity <none>" % p for p in props})}
+            json.dump(cache, open(cpath, "w"), indent=1)
+        return ok_, summ
+
+
+def vo_fingerprint():
+    """identifies the compiled development: every .vo under coq/ with its content hash"""
+    import hashlib
+    h = hashlib.sha256()
+    for dirpath, _, names in sorted(os.walk(COQ)):
+        for n in sorted(names):
+            if n.endswith(".vo"):
+                pth = os.path.join(dirpath, n)
+                h.update(os.path.relpath(pth, COQ).encode())
+                h.update(hashlib.sha256(open(pth, "rb").read()).digest())
+    return h.hexdigest()
+
+
+def _coqchk_verdict(rc, out, props):
+    want = ["* Axioms: <none>", "* Constants/Inductives relying on type-in-type: <none>",
+            "* Constants/Inductives relying on unsafe (co)fixpoints: <none>", "* Inductives whose positivity is assumed: <none>"]
+    flat = re.sub(r"\s+", " ", out)
+    missing = [w for w in want if w not in flat]
+    if rc != 0 or missing:
+        return False, "rc=%s missing=%s tail=%s" % (rc, missing, tail(out, 12))
+    return True, "coqchk -o %s: axioms <none>; type-in-type <none>; unsafe fixpoints <none>; assumed positivity <none>" % " ".join("S3V.props." + p for p in props)
+
+
 def tail(s, n):
     return "\n".join(s.splitlines()[-n:])
 
@@ -374,6 +419,16 @@ class Ctx:
     def coq(self, timeout=1500, extra_targets=(), imports=()):
         extra_targets = list(extra_targets) + [i.replace(".", "/") + ".vo" for i in imports]
         r = coq_check(self.prop, timeout=timeout, extra_targets=extra_targets)
+        if self.tier == "thorough" and r["ok"]:
+            # the independent checker re-checks the compiled property file and everything it depends on
+            ok, summary = coqchk(self.prop)
+            r["obligations"] += 1
+            if ok:
+                r["discharged"] += 1
+            else:
+                r["ok"] = False
+                r["issues"].append("coqchk: " + summary)
+            self.cov["coqchk"] = summary
         self.cov["obligations"] += r["obligations"]
         self.cov["discharged"] += r["discharged"]
         self.cov["theorems"] = r["theorems"]
